@@ -54,7 +54,28 @@ def rules(ctx):
                        "the search is controlled by %s" % (", ".join(str(x) for x in srcs) or "nothing"))
         else:
             ctx.bad(o, "no local-search solve call found")
+    from .C07 import unserved_is_a_sum
+    from .C09 import tour_cache_rules
+    unserved_is_a_sum(ctx, "R1")
+    objective.indicators(ctx, "R1")
+    # R5: the values the search compares are the true values of the candidates (rule group shared with C09)
+    tour_cache_rules(ctx)
     strict_improver(ctx, "R4", PMIN_IMPROVE)
+    # every vehicle is tried as provider of a path exchange (the rotation by the last provider only reorders)
+    SEI = NEIGH + "::RSSchedParallelNeighborhood::segment_exchange_iterator"
+    o, fd = ctx.require_fn("R4.all-providers-enumerated", "T1", SEI,
+                           "the path-exchange enumeration runs over all dummy and real vehicles as providers (no skip/take/filter on them)")
+    if fd is not None:
+        fm = [c for c in fd.body.calls() if (c.callee or "").endswith("::flat_map") or (c.decl or "").endswith("::flat_map")]
+        outer = [c for c in fm if call(NEIGH + "::RSSchedParallelNeighborhood::dummy_and_real_vehicles") in fd.slice_operand_pure(c, c.args[0])["atoms"]]
+        if not outer:
+            ctx.undecided(o, "outer flat_map over the providers not recognised")
+        else:
+            nar = narrowing_calls(fd, outer[0], 0)
+            ctx.decide(o, not nar, "providers.into_par_iter() feeds flat_map directly",
+                       "the provider sequence is narrowed by %s at %s before the exchange candidates are generated: vehicles in front of the "
+                       "last provider are never offered, so the search can stop at a schedule it could still improve" % (
+                           (nar[0].callee or "").split("::")[-1], nar[0].line()) if nar else "", loc=nar[0].line() if nar else None)
     # neighbourhood chains all swap families
     o, fd = ctx.require_fn("R4.neighbourhood-complete", "T1", PN, "the neighbourhood offers all four swap families")
     if fd is not None:
